@@ -250,6 +250,18 @@ Fixpoint onehot (i n : nat) : vec :=
   end.
 Definition hvec (bounds : list Z) (v : Z) : vec := v :: 1 :: onehot (bidx bounds v) (S (length bounds)).
 
+(** ** Base-2 exponential histogram at scale 0 (the scale does not move while all recorded
+    magnitudes stay within maxSize buckets): a sum aggregator over
+    [[sum; count; zero count; negative count; bucket_0 .. bucket_23]], bucket j = (2^j, 2^(j+1)].
+    [unit] is the model unit of the instrument (1 for int64, 2^10 for float64); the harness feeds
+    whole numbers of magnitude 0 or 2 .. 2^23.
+    expoHistogramDataPoint.getBin at scale 0: frexp exponent - 1 (- 2 for an exact power of two)
+    = log2_up x - 1. *)
+Definition evec (unit v : Z) : vec :=
+  let x := v / unit in
+  v :: 1 :: (if x =? 0 then 1 else 0) :: (if x <? 0 then 1 else 0) ::
+  (if 0 <? x then onehot (Z.to_nat (Z.log2_up x - 1)) 24 else onehot 24 24).
+
 (** ** Lemmas about the aggregator (used by C08 and C02 proofs) *)
 
 (** the values selected for key [k] out of a list of measurements *)
